@@ -1184,6 +1184,13 @@ class SerEval:
                         hit = True
                         break
                 return hit if isinstance(op, ast.In) else not hit
+            if isinstance(b, (frozenset, set)) and all(isinstance(x, int) and not isinstance(x, bool) for x in b):
+                av = a if isinstance(a, int) and not isinstance(a, bool) else (a.value() if isinstance(a, BV) and a.is_const() else None)
+                if av is not None:
+                    return (av in b) if isinstance(op, ast.In) else (av not in b)
+                # a symbolic value against a constant set of integers (eg. "is this code assigned to another service"):
+                # both outcomes are explored; no constraint is recorded (over-approximation)
+                return run.choose(2, f"membership in a set of {len(b)} constants") == 0
             raise Unsupported("membership in a non-tuple")
         sym = {ast.Eq: "==", ast.NotEq: "!=", ast.Lt: "<", ast.LtE: "<=", ast.Gt: ">", ast.GtE: ">="}[type(op)]
         for x_, y_, s_ in ((a, b, sym), (b, a, {"<": ">", ">": "<", "<=": ">=", ">=": "<="}.get(sym, sym))):
